@@ -67,6 +67,10 @@ theorem bal_put_other (w : World) (a b : Addr) (x : Acct) (h : a ≠ b) : (w.put
     (w.getCopy a).deploy = false ∧ (w.getCopy a).redeploy = false := by
   unfold World.getCopy; split <;> simp
 
+@[simp] theorem setNonce_bal (a : Acct) (n : Nat) : (a.setNonce n).bal = a.bal := rfl
+@[simp] theorem setNonce_code (a : Acct) (n : Nat) : (a.setNonce n).code = a.code := rfl
+@[simp] theorem setNonce_nonce (a : Acct) (n : Nat) : (a.setNonce n).nonce = n := rfl
+
 theorem absSub_of_le {a b : Nat} (h : b ≤ a) : absSub a b = a - b := by simp [absSub, h]
 
 /-! ### `SendBalance` -/
@@ -223,15 +227,14 @@ structure ExecOK (w : World) (snd rcv : Copy) (o : ExecOut) : Prop where
   sum : o.err = none → o.w.total + o.snd.cur.bal + o.rcv.cur.bal = w.total + snd.cur.bal + rcv.cur.bal
   runtime : o.err = some .runtime → o.leak = false → o.w = w
 
-theorem vmCall_spec (w : World) (tx : Tx) (snd rcv : Copy) (isFD : Bool) (base : Nat) :
-    ExecOK w snd rcv (vmCall w tx snd rcv isFD base) ∧
-    ((vmCall w tx snd rcv isFD base).err = none →
-      (vmCall w tx snd rcv isFD base).fee ≤
-        (if isFD then (vmCall w tx snd rcv isFD base).rcv else (vmCall w tx snd rcv isFD base).snd).cur.bal) := by
-  unfold vmCall
-  simp only []
-  split
+theorem vmCall_spec {w : World} {tx : Tx} {snd rcv : Copy} {isFD : Bool} {base : Nat} {o : ExecOut}
+    (h : vmCall w tx snd rcv isFD base = o) :
+    ExecOK w snd rcv o ∧ (o.err = none → o.fee ≤ (if isFD then o.rcv else o.snd).cur.bal) := by
+  unfold vmCall at h
+  simp only [] at h
+  split at h
   · -- the VM refuses to start
+    subst h
     exact ⟨⟨rfl, rfl, rfl, rfl, rfl, rfl, rfl, by simp, by simp⟩, by simp⟩
   · rename_i rcv' pend hpre
     have hr : rcv'.id = rcv.id ∧ rcv'.old = rcv.old ∧ rcv'.cur.bal = rcv.cur.bal := by
@@ -243,17 +246,19 @@ theorem vmCall_spec (w : World) (tx : Tx) (snd rcv : Copy) (isFD : Bool) (base :
         · cases hpre; simp
         · cases hpre
     obtain ⟨hr1, hr2, hr3⟩ := hr
-    split
-    · exact ⟨⟨rfl, hr1, rfl, hr2, rfl, rfl, rfl, by simp, by simp⟩, by simp⟩
-    · exact ⟨⟨rfl, hr1, rfl, hr2, rfl, rfl, rfl, by simp, by simp⟩, by simp⟩
-    · exact ⟨⟨rfl, hr1, rfl, hr2, rfl, rfl, rfl, by simp, by simp⟩, by simp⟩
-    · split
-      · exact ⟨⟨rfl, hr1, rfl, hr2, rfl, rfl, rfl, by simp, by simp⟩, by simp⟩
+    split at h
+    · subst h; exact ⟨⟨rfl, hr1, rfl, hr2, rfl, rfl, rfl, by simp, by simp⟩, by simp⟩
+    · subst h; exact ⟨⟨rfl, hr1, rfl, hr2, rfl, rfl, rfl, by simp, by simp⟩, by simp⟩
+    · subst h; exact ⟨⟨rfl, hr1, rfl, hr2, rfl, rfl, rfl, by simp, by simp⟩, by simp⟩
+    · split at h
+      · subst h; exact ⟨⟨rfl, hr1, rfl, hr2, rfl, rfl, rfl, by simp, by simp⟩, by simp⟩
       · rename_i sa ra w' t' hx
         have hx' := runXfers_ok hx
         obtain ⟨x1, x2, x3, x4, x5, x6, x7, x8, x9⟩ := hx'
-        split
+        by_cases hfee : (if isFD then ra.bal else sa.bal) < base + tx.script.fee
         · -- the balance-for-fee check fails after the VM
+          rw [if_pos hfee] at h
+          subst h
           refine ⟨⟨rfl, hr1, rfl, hr2, ?_, ?_, x4, by simp, ?_⟩, by simp⟩
           · simp only []
             split
@@ -265,16 +270,53 @@ theorem vmCall_spec (w : World) (tx : Tx) (snd rcv : Copy) (isFD : Bool) (base :
             · rw [← hr1]; exact x3
           · intro _ hl
             simpa using hl
-        · rename_i hfee
+        · rw [if_neg hfee] at h
+          subst h
           refine ⟨⟨rfl, hr1, rfl, hr2, ?_, ?_, x4, ?_, by simp⟩, ?_⟩
-          · rw [acct_of_accts (stage_accts _ _ _), x2]
-          · rw [acct_of_accts (stage_accts _ _ _), ← hr1, x3]
+          · simp only []; rw [acct_of_accts (stage_accts _ _ _), x2]
+          · simp only []; rw [acct_of_accts (stage_accts _ _ _), ← hr1, x3]
           · intro _
-            rw [total_of_accts (stage_accts _ _ _)]
             simp only []
+            rw [total_of_accts (stage_accts _ _ _)]
             omega
           · intro _
-            simp only [] at hfee ⊢
-            exact Nat.le_of_not_lt hfee
+            cases isFD <;> simp at hfee ⊢ <;> omega
+
+
+theorem ExecOK.of_sendBal {w : World} {snd rcv s1 r1 : Copy} {amt : Nat} {o : ExecOut}
+    (hs : sendBal snd rcv amt = some (s1, r1)) (h : ExecOK w s1 r1 o) : ExecOK w snd rcv o := by
+  have q := sendBal_spec hs
+  obtain ⟨q1, q2, q3, q4, q5, q6, q7, q8, q9, q10, q11, q12, q13, q14, q15, q16, q17⟩ := q
+  exact ⟨h.sid.trans q1, h.rid.trans q2, h.sold.trans q3, h.rold.trans q4, q1 ▸ h.asid, q2 ▸ h.arid,
+    h.snonce.trans q5, fun e => by have := h.sum e; omega, h.runtime⟩
+
+theorem execute_spec {c : Ctx} {w : World} {tx : Tx} {snd rcv : Copy} {isFD : Bool} {o : ExecOut}
+    (h : execute c w tx snd rcv isFD = o) :
+    ExecOK w snd rcv o ∧
+    (o.err = none → o.fee ≤ (if isFD then o.rcv else o.snd).cur.bal ∨
+      (o.fee = txBaseFee c tx.payloadLen ∧ o.w = w ∧ sendBal snd rcv tx.amount = some (o.snd, o.rcv))) := by
+  unfold execute at h
+  simp only [] at h
+  split at h
+  · subst h
+    exact ⟨⟨rfl, rfl, rfl, rfl, rfl, rfl, rfl, by simp, by simp⟩, by simp⟩
+  · rename_i s1 r1 hs
+    have triv : ∀ (fee : Nat) (e : Err),
+        ExecOK w snd rcv { snd := s1, rcv := r1, w := w, fee := fee, err := some e } :=
+      fun fee e => ExecOK.of_sendBal hs ⟨rfl, rfl, rfl, rfl, rfl, rfl, rfl, by simp, by simp⟩
+    split at h
+    · subst h; exact ⟨triv _ _, by simp⟩
+    · subst h
+      refine ⟨ExecOK.of_sendBal hs ⟨rfl, rfl, rfl, rfl, rfl, rfl, rfl, by simp, by simp⟩, ?_⟩
+      intro _
+      exact Or.inr ⟨rfl, rfl, hs⟩
+    · split at h
+      · subst h; exact ⟨triv _ _, by simp⟩
+      · split at h
+        · subst h; exact ⟨triv _ _, by simp⟩
+        · split at h
+          · subst h; exact ⟨triv _ _, by simp⟩
+          · have := vmCall_spec h
+            exact ⟨ExecOK.of_sendBal hs this.1, fun e => Or.inl (this.2 e)⟩
 
 end Aergo.Ledger
